@@ -257,4 +257,8 @@ against the repository's test gateway: one room and two handles are created by
 a publisher and a subscriber, nothing is left after both were closed. -/
 def janusExpected : String := "created=1/2 left=0/0 publishers=0"
 
+/-- … and a publisher creation whose `join` request is never answered (the caller's
+context expires) leaves neither the room it had created nor a handle. -/
+def janusTimeoutExpected : String := "err=timeout left=0/0 publishers=0"
+
 end SigModel.Mcu
